@@ -125,7 +125,14 @@ func check(c tcase) *mc.Failure {
 			slice.Rotate(in, k)
 			for i := 0; i < n; i++ {
 				if j := ((i+k)%n + n) % n; in[j] != i {
-					return mc.Failf(0, "Rotate(0..%d, %d) = %v: element %d is not at index %d", n-1, k, in, i, j)
+					return mc.Failf(0, "Rotate(0..%d with spare capacity %d, %d) = %v: element %d is not at index %d", n-1, c.Spare, k, in, i, j)
+				}
+			}
+			if full := in[:cap(in)]; len(full) > n {
+				for i := n; i < len(full); i++ {
+					if full[i] != -100-i {
+						return mc.Failf(0, "Rotate(len %d, spare capacity %d, %d) wrote beyond the slice at offset %d", n, c.Spare, k, i)
+					}
 				}
 			}
 		case "Chunks", "Batches":
@@ -295,6 +302,13 @@ func main() {
 				n := max(l, 0)
 				for k := -n - 2; k <= n+2; k++ {
 					cases = append(cases, tcase{Fn: "Rotate", Len: l, Arg: k})
+					if l >= 0 && l <= 40 {
+						// spare capacity behind the slice: offsets must be taken against len, and
+						// nothing beyond len may be touched
+						for _, spare := range []int{1, 2, 3, 5, 8, l + 1} {
+							cases = append(cases, tcase{Fn: "Rotate", Len: l, Spare: spare, Arg: k})
+						}
+					}
 				}
 			}
 			// longer slices: thresholds in an implementation (block moves, unrolled
